@@ -48,7 +48,7 @@ func (c *StorageChanges) Changes() map[uint64][][]byte {
 type StorageKey struct {
 	slot          *uint256.Int
 	offset        uint8
-	children      map[uint256.Int]map[uint8]*StorageKey
+	children      map[uint256.Int]map[uint8]map[common.Hash]*StorageKey
 	childrenIndex map[string]*StorageKey
 	changes       *StorageChanges
 	data          []byte
@@ -65,7 +65,7 @@ func NewBranchKey(slot *uint256.Int, offset uint8, typeId common.Hash, data []by
 		offset:        offset,
 		data:          data,
 		typeId:        typeId,
-		children:      make(map[uint256.Int]map[uint8]*StorageKey),
+		children:      make(map[uint256.Int]map[uint8]map[common.Hash]*StorageKey),
 		childrenIndex: make(map[string]*StorageKey),
 		nodeType:      BranchNode,
 	}
@@ -77,7 +77,7 @@ func NewBranchKey(slot *uint256.Int, offset uint8, typeId common.Hash, data []by
 // The data field for root key is the balance of the account.
 func NewRootKey() *StorageKey {
 	return &StorageKey{
-		children:      make(map[uint256.Int]map[uint8]*StorageKey),
+		children:      make(map[uint256.Int]map[uint8]map[common.Hash]*StorageKey),
 		childrenIndex: make(map[string]*StorageKey),
 		nodeType:      RootNode,
 	}
@@ -120,25 +120,31 @@ func (k *StorageKey) Offset() uint8 {
 	return k.offset
 }
 
-// AddChild adds a child storage key to current one
+// AddChild adds a child storage key to current one.
+// A child is identified by (slot, offset, type id), exactly like in the flat index of
+// StateChanges: packed fields share a slot at distinct offsets, and differently typed
+// views may share a (slot, offset). The first registration of a key wins, both in the
+// tree and in the name index, so that both lookup paths always reach the same record.
 func (k *StorageKey) AddChild(child *StorageKey) (*StorageKey, error) {
 	slot, offset := child.Slot(), child.Offset()
 	if k.children[*slot] == nil {
-		k.children[*slot] = make(map[uint8]*StorageKey)
+		k.children[*slot] = make(map[uint8]map[common.Hash]*StorageKey)
 	}
+	if k.children[*slot][offset] == nil {
+		k.children[*slot][offset] = make(map[common.Hash]*StorageKey, 1)
+	}
+
+	if existing, ok := k.children[*slot][offset][child.typeId]; ok {
+		return existing, nil
+	}
+	k.children[*slot][offset][child.typeId] = child
 
 	storageKey := string(child.data)
 	if k.childrenIndex[storageKey] == nil {
 		k.childrenIndex[storageKey] = child
 	}
 
-	existing, ok := k.children[*slot][offset]
-	if !ok {
-		k.children[*slot][offset] = child
-		return child, nil
-	}
-
-	return existing, nil
+	return child, nil
 }
 
 func (k *StorageKey) Changes() *StorageChanges {
